@@ -19,18 +19,21 @@ func New[T any]() *Future[T] {
 }
 
 // ThenAccept registers a callback to be called when the Future is completed.
+// The callback is never invoked while the Future's mutex is held, so a callback
+// may itself register on or complete this or any other Future without deadlocking.
 func (f *Future[T]) ThenAccept(callback func(T)) *Future[T] {
 	f.mu.Lock()
-	defer f.mu.Unlock()
-
-	// If the Future is already completed, call the callback
-	if f.completed {
-		callback(f.value)
-	} else {
+	if !f.completed {
 		// Append the new callback to the slice of callbacks
 		f.callback = append(f.callback, callback)
+		f.mu.Unlock()
+		return f
 	}
+	value := f.value
+	f.mu.Unlock()
 
+	// The Future is already completed, call the callback
+	callback(value)
 	return f
 }
 
@@ -46,19 +49,23 @@ func ThenCompose[T any, U any](f *Future[T], callback func(T) *Future[U]) *Futur
 }
 
 // Complete sets the value and calls the registered callbacks if they haven't been called yet.
+// The callbacks run after the Future's mutex has been released.
 func (f *Future[T]) Complete(value T) *Future[T] {
 	f.mu.Lock()
-	defer f.mu.Unlock()
-
 	// Check if the Future is already completed
 	if f.completed {
+		f.mu.Unlock()
 		return f
 	}
 
-	// Set the value and call the callbacks
+	// Set the value and take the callbacks registered so far
 	f.value = value
 	f.completed = true
-	for _, fn := range f.callback {
+	callbacks := f.callback
+	f.callback = nil
+	f.mu.Unlock()
+
+	for _, fn := range callbacks {
 		fn(value)
 	}
 
